@@ -6,6 +6,7 @@ package main
 // of the exported document and imports it back.
 
 import (
+	"bytes"
 	"encoding/json"
 	"fmt"
 	"io"
@@ -1496,10 +1497,99 @@ func exportDoc(app *sysl.Application, sc *ioScenario, logger *logrus.Logger) ([]
 	return outb, err
 }
 
+var (
+	rePbMsg   = regexp.MustCompile(`^(message|enum) (\w+) \{$`)
+	rePbField = regexp.MustCompile(`^(repeated |optional )?([\w.]+) (\w+) = \d+;`)
+	rePbVal   = regexp.MustCompile(`^(\w+) = -?\d+;`)
+)
+
+// protoFacts reads a .proto text generically: messages with their fields, enumerations with their members.
+func protoFacts(text string) ([][]string, []string) {
+	fs := &factSet{}
+	var unknown []string
+	cur, kind := "", ""
+	for _, raw := range strings.Split(text, "\n") {
+		l := strings.TrimSpace(raw)
+		switch {
+		case l == "" || strings.HasPrefix(l, "//") || strings.HasPrefix(l, "syntax") || strings.HasPrefix(l, "package") ||
+			strings.HasPrefix(l, "option") || strings.HasPrefix(l, "import"):
+		case rePbMsg.MatchString(l):
+			g := rePbMsg.FindStringSubmatch(l)
+			kind, cur = g[1], g[2]
+			if kind == "message" {
+				fs.add("T", cur, "object")
+			} else {
+				fs.add("T", cur, "named")
+			}
+		case l == "}":
+			cur = ""
+		case cur != "" && kind == "enum" && rePbVal.MatchString(l):
+			fs.add("V", cur, rePbVal.FindStringSubmatch(l)[1])
+		case cur != "" && kind == "message" && rePbField.MatchString(l):
+			g := rePbField.FindStringSubmatch(l)
+			ty, req := g[2], "1"
+			if strings.TrimSpace(g[1]) == "optional" {
+				req = "0"
+			}
+			wrappers := map[string]string{"google.protobuf.StringValue": "string", "google.protobuf.BoolValue": "bool",
+				"google.protobuf.Int32Value": "int", "google.protobuf.Int64Value": "int", "google.protobuf.DoubleValue": "float",
+				"google.protobuf.FloatValue": "float"}
+			base := ""
+			switch ty {
+			case "int32", "int64", "sint32", "sint64", "uint32", "uint64":
+				base = "int"
+			case "double", "float":
+				base = "float"
+			case "string", "bool":
+				base = ty
+			default:
+				if b, ok := wrappers[ty]; ok {
+					base, req = b, "0"
+				} else {
+					// a field of message type says nothing about presence: it stands for both
+					base = "ref:" + ty
+					fs.add("F", cur, g[3], base, b01(strings.TrimSpace(g[1]) == "repeated"), "0")
+				}
+			}
+			fs.add("F", cur, g[3], base, b01(strings.TrimSpace(g[1]) == "repeated"), req)
+		default:
+			unknown = append(unknown, l)
+		}
+	}
+	return fs.sorted(), unknown
+}
+
+// interopExportProto: Sysl source -> compile -> the Protocol Buffers exporter -> read generically (no import back)
+func interopExportProto(w *tr.Writer, sc *ioScenario, src string, mod *sysl.Module, logger *logrus.Logger) {
+	var out bytes.Buffer
+	err := guard(func() error {
+		x := exporter.MakeTransformExporter(afero.NewMemMapFs(), logger, "/", "out.proto", "proto")
+		return x.ExportToWriter(&out, []*sysl.Module{mod}, []string{"src.sysl"})
+	})
+	if !stage(w, sc, "export", err, tr.Ev{"text": out.String()}) {
+		return
+	}
+	facts, unknown := protoFacts(out.String())
+	var verr error
+	if len(unknown) > 0 {
+		verr = fmt.Errorf("lines that are no Protocol Buffers statement: %q", unknown[0])
+	}
+	if !stage(w, sc, "validate", verr, nil) {
+		return
+	}
+	stage(w, sc, "read", nil, tr.Ev{"facts": facts})
+	// the import back of an exported .proto is the import direction of the same format; here the read facts stand in
+	stage(w, sc, "importback", nil, tr.Ev{"facts": facts})
+}
+
 func interopExport(w *tr.Writer, sc *ioScenario, logger *logrus.Logger) {
 	src := renderSysl(&sc.Doc)
 	mod, err := compileText(map[string]string{"src.sysl": src}, "src.sysl")
 	if !stage(w, sc, "compile", err, tr.Ev{"text": src}) {
+		return
+	}
+	if sc.Fmt == "proto" {
+		interopExportProto(w, sc, src, mod, logger)
 		return
 	}
 	app := mod.GetApps()[ioApp]
